@@ -7,7 +7,7 @@ Driver for C13: one op per modelled function.  Strings in, JSON (compact) or an 
   substance {"s": str}           -> JSON [latex_name, unicode_name, html_name] | exception name
   species  {"s": str, "phases": [str] | [[str, int]], "default": int | null}
                                  -> JSON [latex_name, unicode_name, html_name, phase_idx] | exception name
-  reaction {"printer": "str"|"latex"|"unicode"|"html", "eq": bool, "substances": [str], "reac": [[key, n | [num, den]]], "prod": [...]}
+  reaction {"printer": "str"|"latex"|"unicode"|"html", "eq": bool, "substances": [str], "reac": [[key, n | [num, den]]], "prod": [...], "inact_reac": [...]?, "inact_prod": [...]?}
                                  -> JSON string
 -/
 import ChemModel.Basic.Proto
@@ -110,7 +110,9 @@ def h : Handler := fun op j =>
       match substanceFromFormula k.toList with
       | .ok s => .ok (k.toList, s)
       | .error e => .error s!"!substance:{e}"
-    pure (jstr (printReaction p eq substances (← getPairs j "reac") (← getPairs j "prod"))).compress
+    let ir ← match j.getObjVal? "inact_reac" with | .ok _ => getPairs j "inact_reac" | .error _ => pure []
+    let ip ← match j.getObjVal? "inact_prod" with | .ok _ => getPairs j "inact_prod" | .error _ => pure []
+    pure (jstr (printReaction p eq substances (← getPairs j "reac") (← getPairs j "prod") ir ip)).compress
   | _ => .error "!bad-op"
 
 def main : IO Unit := run h
